@@ -206,6 +206,8 @@ EXPORT char *_stpcpy_s_chk(char *restrict dest, rsize_t dmax,
             *dest = *src;
             if (*dest == '\0') {
               eok:
+                /* the result is the address of the terminator */
+                orig_dest = dest;
 #ifdef SAFECLIB_STR_NULL_SLACK
                 /* null slack to clear any data */
                 if (dmax > 0x20)
@@ -219,7 +221,7 @@ EXPORT char *_stpcpy_s_chk(char *restrict dest, rsize_t dmax,
                 }
 #endif
                 *errp = RCNEGATE(EOK);
-                return dest;
+                return orig_dest;
             }
 
             dmax--;
